@@ -13,9 +13,10 @@ class Unsupported(Exception):
 
 
 class NeedFork(Exception):
-    def __init__(self, feas, conds):
+    def __init__(self, feas, conds, models=None):
         self.feas = feas
         self.conds = conds
+        self.models = models or {}
 
 
 class PathEnd(Exception):
@@ -90,6 +91,9 @@ class State:
         self.nsteps = 0
         self.trace = []        # decision trace (for diagnostics)
         self.maporder = False  # path depended on a map-order choice
+        self.model = None      # a model known to satisfy pc (or None)
+        self.known = {}        # ast id -> (expr, bool): branch conditions already decided on this path
+        self.pending_known = []  # decided during the current instruction; committed when it completes
 
     def copy(self):
         s = State.__new__(State)
@@ -106,6 +110,9 @@ class State:
         s.nsteps = self.nsteps
         s.trace = list(self.trace)
         s.maporder = self.maporder
+        s.model = self.model
+        s.known = dict(self.known)
+        s.pending_known = []
         return s
 
 
